@@ -119,6 +119,37 @@ def run(chk):
         else:
             cdist["ok" if res[0][0] == "OK" else "err"] += 1
     chk.count("corpus_x_switches", len(lines), **cdist)
+    # ---- conditional assembly under the four combinations: constants in chains of every order feeding #if / #elif / #else
+    # (the first loop of assemble counts resolved constants per round; a statically known constant is pinned early)
+    import c16_gen
+    irng = chk.rng.fork("c08-if")
+    itexts = []
+    for _ in range(400 if quick else 4000):
+        if irng.chance(0.6):
+            tree, defs = c16_gen.chain_case(irng, irng.range(1, len(c16_gen.CHAIN)), irng.choice(['lit', 'lit', 'litexpr', 'neg', 'viaconst']),
+                                            irng.weighted([('forward', 3), ('backward', 4), ('shuffled', 3)]), irng.chance(0.4),
+                                            irng.choice(['before', 'after', 'middle']),
+                                            [o for o in ('true', 'onq', 'late', 'declares') if irng.chance(0.25)], None)
+        else:
+            tree, defs = c16_gen.gen_case(irng)
+        if defs:
+            continue
+        itexts.append(c16_gen.render(tree))
+    ilines = ["A\t10\t%d\t%d\t%s\t" % (s_, m_, t.encode().hex()) for t in itexts for (s_, m_) in COMBOS]
+    ica = vlib.run_lines([R.bins["debug"] + "/asmtext"], ilines)
+    idist = {"ok": 0, "err": 0}
+    for j, t in enumerate(itexts):
+        res = [asm_gen.canon_impl(x) for x in ica[j * 4:j * 4 + 4]]
+        rep = {"kind": "if-switches", "program": t, "budget": 10, "combos(static,matcher)": COMBOS, "impl": [str(asm_streams.sig(r))[:300] for r in res]}
+        if any(r[0] not in ("OK", "ERR") for r in res):
+            chk.violation("implementation crashed on a conditional-assembly program under some switch combination", rep)
+        elif any(asm_streams.sig(r) != asm_streams.sig(res[0]) for r in res):
+            chk.violation("the optimisation switches change the result of a conditional-assembly program", rep)
+        else:
+            idist["ok" if res[0][0] == "OK" else "err"] += 1
+            if res[0][0] == "OK":
+                chk.nontriv(t)
+    chk.count("conditional_x_switches", len(ilines), **idist)
     # ---- matcher stream
     vlib.extraction("ExMatcher")
     mm = vlib.ocaml_build("matcher_driver", ["matcher_model"])
